@@ -26,6 +26,7 @@ use utils::*;
 
 mod conc;
 mod fnmode;
+mod live;
 mod orch;
 mod timer;
 
@@ -105,6 +106,7 @@ fn main() {
         "run" => orch::run_file(&input, &mut out),
         "timer" => timer::run_file(&input, &mut out),
         "conc" => conc::run_file(&input, &mut out),
+        "live" => live::run_file(&input, &mut out),
         "fn" => fnmode::run_file(&input, &mut out),
         _ => {
             eprintln!("unknown mode");
